@@ -182,3 +182,9 @@ G8_curve = [
     r('Arc2D.angle', [ARC2], name='Arc2D_angle'),
 ]
 LAYERS.append(('G8_curve', G8_curve))
+
+G9_clean = [
+    r('Polygon2D.remove_colinear_vertices', [POLY2, Q], name='Polygon2D_remove_colinear_vertices'),
+    r('Polygon2D.remove_duplicate_vertices', [POLY2, Q], name='Polygon2D_remove_duplicate_vertices'),
+]
+LAYERS.append(('G9_clean', G9_clean))
